@@ -174,6 +174,11 @@ func runC01(p *P, r *R) {
 		c01Pusher(p, r, f)
 	}
 	c01HeaderWriters(p, r, fr)
+	// R01.11 ownership presupposes that both processes and every accessor agree on where the list's control words and a
+	// slot's link/flag live, and that slots are laid out with the header stride (shared with C03)
+	borrow(p, r, "C03", runC03, map[string]string{"R03.1": "R01.11", "R03.2": "R01.11"}, func(o Ob) bool {
+		return constructHas(o, "free-list header", "slot header", "(bufferHeader)", "stride", "initial tail", "newBufferSlice")
+	})
 	abaRule(p, r, "R01.9")
 	// R01.10 nobody but the holder touches a slot header: a chain walker does not use a slice's header after it gave the slice back
 	linkReadBeforeRecycle(p, r, "R01.10")
